@@ -10,7 +10,10 @@ from vlib import core  # noqa: E402
 
 log = core.Log()
 specs = []
+claimed = set((ROOT / "tools" / "claimed.txt").read_text().split())
 for f in sorted((ROOT / "props").glob("c*.py")):
+    if f.stem.upper() not in claimed:
+        continue
     spec = importlib.import_module("props." + f.stem).SPEC
     if not spec.get("disabled"):
         specs.append(spec)
